@@ -59,12 +59,16 @@ func PathFor(in interface{}) (string, error) {
 	k := to.Kind()
 	switch k {
 	case reflect.Struct:
-		f := rv.FieldByName("Slug")
-		if f.IsValid() {
-			return byField(ni, f)
-		}
-		f = rv.FieldByName("ID")
-		if f.IsValid() {
+		for _, n := range []string{"Slug", "ID"} {
+			sf, ok := to.FieldByName(n)
+			if !ok {
+				continue
+			}
+			// the field may be promoted from an embedded pointer that is nil
+			f, err := rv.FieldByIndexErr(sf.Index)
+			if err != nil {
+				return "", fmt.Errorf("could not convert %T to path: %w", in, err)
+			}
 			return byField(ni, f)
 		}
 	case reflect.Slice, reflect.Array:
